@@ -217,9 +217,47 @@ pub fn add_grids(p: &mut Plan, q: bool, boundary_words: bool) {
         backend: Backend::Native,
         tasks,
     });
+    // long runs: unrolled loops of 64/128 bytes and their hand-over to the narrower steps
+    {
+        let llong: usize = if q { 300 } else { 520 };
+        let mut tasks: Vec<TaskFn> = Vec::new();
+        for class in 0..3u8 {
+            for backend in backends_for(class) {
+                for place in [Place::EndFlush, Place::StartFlush, Place::Mid(1), Place::Hostile(3)] {
+                    for band in 0..4usize {
+                        tasks.push(Box::new(move |ck: &mut Checker| {
+                            let vals: [u8; 14] = [0x00, 0x09, 0x0a, 0x0d, 0x1f, 0x20, 0x21, b':', b'@', 0x7e, 0x7f, 0x80, 0xa0, 0xff];
+                            let filler = fillers(class)[0];
+                            let mut buf = Vec::with_capacity(llong);
+                            for l in (lmax + 1..=llong).filter(|l| l % 4 == band) {
+                                buf.clear();
+                                buf.resize(l, filler);
+                                check(ck, backend, class, &buf, place);
+                                for pos in 0..l {
+                                    for &v in &vals {
+                                        if v == filler {
+                                            continue;
+                                        }
+                                        buf[pos] = v;
+                                        check(ck, backend, class, &buf, place);
+                                    }
+                                    buf[pos] = filler;
+                                }
+                                if ck.full() {
+                                    return;
+                                }
+                            }
+                        }));
+                    }
+                }
+            }
+        }
+        p.phases.push(Phase { label: format!("S3: long scanner grid, 5 backends × 3 classes × L {}..={} × position × 14 boundary values × 4 placements", lmax + 1, llong), backend: Backend::Native, tasks });
+        p.bounds.push(format!("S3 long grid: run lengths {}..={} with one byte of {{00,09,0A,0D,1F,20,21,':','@',7E,7F,80,A0,FF}} at every position (and none), placements end-flush / start-flush / mid+1 / in-class surroundings, every backend", lmax + 1, llong));
+    }
     // pairs of offending positions (first-of-several selection)
     let mut tasks: Vec<TaskFn> = Vec::new();
-    let lens: Vec<usize> = if q { vec![7, 8, 16, 17, 31, 32, 33, 64, 71] } else { (1..=72).collect() };
+    let lens: Vec<usize> = if q { vec![7, 8, 16, 17, 31, 32, 33, 64, 71, 129, 160] } else { (1..=72).chain([96, 127, 128, 129, 130, 160, 200, 257]).collect() };
     for class in 0..3u8 {
         for backend in backends_for(class) {
             let lens = lens.clone();
